@@ -29,7 +29,7 @@ def lit(tag):
     return ["lit", (tag + "-" * CONTENT_LEN)[:CONTENT_LEN]]
 
 
-HOSTILE = ["x ", " x", "x ", " x", "x\t", "x\n", "x\r", "a'b", 'a"b', "a\\b", "#x", "~x", "$x", "x$(y)", "a b c",
+HOSTILE = ["x ", " x", "x ", " x", "x\t", "x\n", "x\r", "a'b", 'a"b', "a\\b", "#x", "~x", "f[12]", "x{1,2}", "$x", "x$(y)", "a b c",
            "\udcffx", "x\udcff", "ż€", "-n", "x;y", "x&y", "*", "?", "[x]", "x\\", "'", "x\ny z", " ", "x  ", "\\n"]
 
 
@@ -91,6 +91,15 @@ def hostile_tree(name):
     entries = [{"p": "d/" + name, "k": "file", "c": lit("N")}, {"p": "d2/" + name, "k": "file", "c": lit("N")},
                {"p": "d2/plain", "k": "file", "c": lit("N")}]
     near = set([name.strip(), name.strip() + "x", name.rstrip(), name.lstrip(), name.replace("\\", ""), name + " "])
+    # names that the hostile name would match / expand to if a shell saw it unquoted
+    import re
+    near.add(re.sub(r"\[(.)[^\]]*\]", r"\1", name))
+    near.add(name.replace("?", "q"))
+    near.add(name.replace("*", "zz"))
+    m = re.search(r"\{([^{},]*),([^{},]*)\}", name)
+    if m:
+        near.add(name[:m.start()] + m.group(1) + name[m.end():])
+        near.add(name[:m.start()] + m.group(2) + name[m.end():])
     for i, nn in enumerate(sorted(near)):
         if nn and nn != name and "/" not in nn and nn not in (".", ".."):
             entries.append({"p": "d/" + nn, "k": "file", "c": lit("decoy%d" % i)})
@@ -113,7 +122,7 @@ def cases(tier, seed):
     quick = tier == "quick"
     out = []
     trees = [("s:" + k, v) for k, v in structural_trees().items()]
-    names = HOSTILE[:12] if quick else HOSTILE
+    names = HOSTILE[:14] if quick else HOSTILE
     trees += [("n:%d" % i, hostile_tree(n)) for i, n in enumerate(names)]
     idx = 0
     for tname, (roots, gargs, entries) in trees:
